@@ -57,6 +57,8 @@ NP == Len(nt)
 TasksOf(l) == {t \in (1..Len(l)) \X (1..3) : t[2] <= l[t[1]]}
 Tasks == TasksOf(nt)
 Th == 1..NTH
+MaxMembers == 6                        \* constant supersets for the quantifiers of Next (per-action coverage)
+AnyTask == (1..MaxMembers) \X (1..3)
 AllDone(m) == \A t \in Tasks : t[1] = m => state[t] = "done"
 
 Frame(f, m, pc) == [f |-> f, m |-> m, pc |-> pc, k |-> 0, rem |-> 0, en |-> 0]
@@ -85,7 +87,7 @@ MainWait == /\ mainpc = "adding" /\ stack[1] = <<>> /\ mainpc' = "wait" /\ start
             /\ UNCHANGED <<nt, usage, stack, mon, pa, completed, enabled, term, state, cdone, active, sync, win>>
 
 \* ---- parsec_context_add_taskpool(member m) called by the top frame of th (which moves to pc npc) -------------------
-\* returns the new stack; the other effects are in EnableRest
+\* the new stack (a member that terminates inside the call runs its callback nested on the same thread)
 EnableStack(th, m, npc, nested) ==
     LET me == [Top(th) EXCEPT !.pc = npc, !.en = m]
         base == [stack EXCEPT ![th] = [@ EXCEPT ![Len(@)] = me]] IN
@@ -137,14 +139,14 @@ CAdd(th) == /\ At(th, "cb", "add")
             /\ UNCHANGED <<nt, usage, mainpc, started, mon, pa, completed, state, cdone, win>>
 
 \* ---- tasks and termination of the members ------------------------------------------------------------------------------
-TaskStart(t) == /\ enabled[t[1]] > 0 /\ state[t] = "idle" /\ \E th \in Th : Idle(th)
+TaskStart(t) == /\ t \in Tasks /\ enabled[t[1]] > 0 /\ state[t] = "idle" /\ \E th \in Th : Idle(th)
                 /\ state' = [state EXCEPT ![t] = "run"]
                 /\ UNCHANGED <<nt, usage, mainpc, started, stack, mon, pa, completed, enabled, term, cdone, active, sync, win>>
-TaskEnd(t) == /\ state[t] = "run"
+TaskEnd(t) == /\ t \in Tasks /\ state[t] = "run"
               /\ state' = [state EXCEPT ![t] = "done"]
               /\ UNCHANGED <<nt, usage, mainpc, started, stack, mon, pa, completed, enabled, term, cdone, active, sync, win>>
 MemberTerminates(th, m) ==
-    /\ Idle(th) /\ enabled[m] > 0 /\ ~term[m] /\ AllDone(m)
+    /\ m <= NP /\ Idle(th) /\ enabled[m] > 0 /\ ~term[m] /\ AllDone(m)
     /\ term' = [term EXCEPT ![m] = TRUE]
     /\ stack' = [stack EXCEPT ![th] = <<Frame("cb", m, COrder[1])>>]
     /\ win' = IF \E u \in Th : \E i \in 1..Len(stack[u]) : stack[u][i].en = m THEN win \cup {m} ELSE win
@@ -160,9 +162,9 @@ Next == \/ AddCompound \/ MainWait
         \/ \E th \in Th : CInc(th)
         \/ \E th \in Th : CDec(th)
         \/ \E th \in Th : CAdd(th)
-        \/ \E t \in Tasks : TaskStart(t)
-        \/ \E t \in Tasks : TaskEnd(t)
-        \/ \E th \in Th : \E m \in 1..NP : MemberTerminates(th, m)
+        \/ \E t \in AnyTask : TaskStart(t)
+        \/ \E t \in AnyTask : TaskEnd(t)
+        \/ \E th \in Th : \E m \in 1..MaxMembers : MemberTerminates(th, m)
         \/ Finished
 Spec == Init /\ [][Next]_vars
 
